@@ -13,9 +13,9 @@ cd "$T/verif"
 for p in "$@"; do
   VERIF_HOME=$T/verif VERIF_REPO=$T/repo ./check $p --tier $tier > "$T/$p.log" 2>&1
   rc=$?
-  echo "$p rc=$rc $(grep -c '^VIOLATION' "$T/$p.log") violation line(s)"
-  grep '^VIOLATION' "$T/$p.log" | head -4
-  grep -A2 '^VIOLATION' "$T/$p.log" | grep -v '^VIOLATION\|^--' | head -6 | cut -c1-300
+  echo "$p rc=$rc $(grep -a -c '^VIOLATION' "$T/$p.log") violation line(s)"
+  grep -a '^VIOLATION' "$T/$p.log" | head -4
+  grep -a -A2 '^VIOLATION' "$T/$p.log" | grep -a -v '^VIOLATION\|^--' | head -6 | cut -c1-300
 done
 cd /
 git -C /repo worktree remove --force "$T/repo"
